@@ -60,6 +60,13 @@ impl IvpProblem {
     /// flavour: 0 general, 1 linear, 2 autonomous, 3 linear autonomous, 4 at rest (f(t,y0) = 0
     /// for all t), 5 relaxing to a steady state
     pub fn gen(rng: &mut Rng, n: usize, flavour: usize) -> IvpProblem {
+        Self::gen_amp(rng, n, flavour, 1.0)
+    }
+
+    /// `amp` scales the forcing amplitude: a stronger forcing makes the solution's higher
+    /// derivatives larger at the same Lipschitz constant, so that the error estimator (not the
+    /// step cap) limits the steps.
+    pub fn gen_amp(rng: &mut Rng, n: usize, flavour: usize, amp: f64) -> IvpProblem {
         let s = rng.r(0.3, 2.0);
         let mut a = vec![0.0; n * n];
         let strictly = flavour == 5;
@@ -95,7 +102,7 @@ impl IvpProblem {
             } else {
                 let w = rng.r(0.2, 2.0) * s;
                 wmax = wmax.max(w);
-                forcing.push((rng.r(-1.0, 1.0), w, rng.r(0.0, 6.283)));
+                forcing.push((rng.r(-1.0, 1.0) * amp, w, rng.r(0.0, 6.283)));
             }
         }
         let fro = a.iter().map(|x| x * x).sum::<f64>().sqrt();
